@@ -434,4 +434,581 @@ theorem netloc_not_scheme (L : Str) (hL : ∀ c ∈ L, isAsciiAlpha c = true) :
 
 end
 
+
+/-! ## the path -/
+
+/-- what the printer needs of a path: empty or absolute, no `?`, no `#`, no control character -/
+structure PathOk (s : Str) : Prop where
+  abs : AbsPath s
+  noq : '?' ∉ s
+  noh : '#' ∉ s
+  noCtl : NoCtl s
+
+theorem absPath_prefix {s t : Str} (h : t <+: s) (hs : AbsPath s) : AbsPath t := by
+  rcases hs with rfl | ⟨q, rfl⟩
+  · left; exact List.prefix_nil.1 h
+  · cases t with
+    | nil => left; rfl
+    | cons c r =>
+      right
+      obtain ⟨u, hu⟩ := h
+      simp only [List.cons_append, List.cons.injEq] at hu
+      exact ⟨r, by rw [hu.1]⟩
+
+theorem PathOk.of_prefix {s t : Str} (h : t <+: s) (hs : PathOk s) : PathOk t :=
+  ⟨absPath_prefix h hs.abs, fun hm => hs.noq (h.subset hm), fun hm => hs.noh (h.subset hm),
+    NoCtl.of_subset h.subset hs.noCtl⟩
+
+theorem PathOk.nil : PathOk [] := ⟨Or.inl rfl, by simp, by simp, fun _ h => by simp at h⟩
+
+theorem pathOk_unquotePath {s : Str} (hs : PathOk s) : PathOk (unquotePath s) := by
+  refine ⟨?_, ?_, ?_, noCtl_safelyUnquote _ hs.noCtl⟩
+  · rcases hs.abs with rfl | ⟨q, rfl⟩
+    · left; exact safelyUnquote_nil _
+    · right; exact ⟨_, safelyUnquote_cons_slash _ q⟩
+  · exact not_mem_safelyUnquote _ ⟨by decide, by decide⟩ (by decide) (by decide) s hs.noq
+  · exact not_mem_safelyUnquote _ ⟨by decide, by decide⟩ (by decide) (by decide) s hs.noh
+
+theorem pathOk_lower {s : Str} (hs : PathOk s) : PathOk (lower s) := by
+  refine ⟨?_, ?_, ?_, hs.noCtl.lower⟩
+  · rcases hs.abs with rfl | ⟨q, rfl⟩
+    · left; rfl
+    · right; exact ⟨lower q, by simp [lower]; decide⟩
+  · exact fun hm => hs.noq (mem_lower_bad (by decide) hm)
+  · exact fun hm => hs.noh (mem_lower_bad (by decide) hm)
+
+theorem pathOk_normpath {s : Str} (hs : PathOk s) : PathOk (normpath s) := by
+  refine ⟨?_, ?_, ?_, ?_⟩
+  · rcases hs.abs with rfl | ⟨q, rfl⟩
+    · left; decide
+    · rcases normpath_abs_shape q with h | ⟨d, r, h, _⟩
+      · left; exact h
+      · right; exact ⟨_, h⟩
+  · intro hm
+    rcases mem_normpath hm with h | h
+    · exact hs.noq h
+    · cases h
+  · intro hm
+    rcases mem_normpath hm with h | h
+    · exact hs.noh h
+    · cases h
+  · intro c hc
+    rcases mem_normpath hc with h | rfl
+    · exact hs.noCtl c h
+    · decide
+
+theorem pathOk_snoc_slash {s : Str} (hs : PathOk s) : PathOk (s ++ ['/']) := by
+  refine ⟨?_, ?_, ?_, ?_⟩
+  · rcases hs.abs with rfl | ⟨q, rfl⟩
+    · right; exact ⟨[], rfl⟩
+    · right; exact ⟨q ++ ['/'], rfl⟩
+  · intro hm; rcases List.mem_append.1 hm with h | h
+    · exact hs.noq h
+    · simp at h
+  · intro hm; rcases List.mem_append.1 hm with h | h
+    · exact hs.noh h
+    · simp at h
+  · intro c hc; rcases List.mem_append.1 hc with h | h
+    · exact hs.noCtl c h
+    · simp only [List.mem_singleton] at h; subst h; decide
+
+theorem pathOk_resolveUnquoted (sts : Bool) {s : Str} (hs : PathOk s) :
+    PathOk (resolveUnquoted sts s) := by
+  unfold resolveUnquoted
+  split
+  · exact hs
+  · simp only
+    split
+    · exact pathOk_snoc_slash (pathOk_normpath hs)
+    · exact pathOk_normpath hs
+
+/-- no AMP marker starts at the slash that opens an absolute path -/
+theorem ampSuffixSub_cons_slash (r : Str) :
+    ampSuffixSub ('/' :: r) = '/' :: ampSuffixSubFrom r true 0 := by
+  unfold ampSuffixSub
+  have h : ampSuffixHere false ('/' :: r) = none := by
+    have hne : lowerChar '/' ≠ '.' := by decide
+    simp [ampSuffixHere, matchLit, ciMatch, hne]
+  simp [ampSuffixSubFrom, h]
+
+theorem pathOk_ampSuffixSub {s : Str} (hs : PathOk s) : PathOk (ampSuffixSub s) := by
+  have hsub : ampSuffixSub s ⊆ s := (ampSuffixSub_del s).sublist.subset
+  refine ⟨?_, fun hm => hs.noq (hsub hm), fun hm => hs.noh (hsub hm), NoCtl.of_subset hsub hs.noCtl⟩
+  rcases hs.abs with rfl | ⟨q, rfl⟩
+  · left; decide
+  · right; exact ⟨_, ampSuffixSub_cons_slash q⟩
+
+theorem pathOk_stripIndex {s : Str} (hs : PathOk s) : PathOk (stripIndex s) := by
+  rcases stripIndex_spec s with h | h
+  · rw [h]; exact hs
+  · exact hs.of_prefix h.prefix
+
+theorem pathOk_pathSteps (o : Normalize.Opts) {s : Str} (hs : PathOk s) : PathOk (pathSteps o s) := by
+  unfold pathSteps
+  simp only
+  have h1 : PathOk (if o.lowercase = true then lower (unquotePath s) else unquotePath s) := by
+    split
+    · exact pathOk_lower (pathOk_unquotePath hs)
+    · exact pathOk_unquotePath hs
+  have h2 := pathOk_resolveUnquoted o.stripTrailingSlash h1
+  have h3 : PathOk (if o.normalizeAmp = true then
+      ampSuffixSub (resolveUnquoted o.stripTrailingSlash
+        (if o.lowercase = true then lower (unquotePath s) else unquotePath s))
+      else resolveUnquoted o.stripTrailingSlash
+        (if o.lowercase = true then lower (unquotePath s) else unquotePath s)) := by
+    split
+    · exact pathOk_ampSuffixSub h2
+    · exact h2
+  split
+  · exact pathOk_stripIndex h3
+  · exact h3
+
+theorem pathOk_finishPath (quoted : Bool) {s : Str} (hs : PathOk s) : PathOk (finishPath quoted s) := by
+  refine ⟨?_, mem_finishPath_not (Or.inl rfl) quoted s hs.noq,
+    mem_finishPath_not (Or.inr rfl) quoted s hs.noh, noCtl_finishPath quoted hs.noCtl⟩
+  rcases hs.abs with rfl | ⟨q, rfl⟩
+  · left; exact finishPath_nil quoted
+  · right; exact ⟨_, finishPath_cons_slash quoted q⟩
+
+/-- **the path of the result**: empty or absolute, without `?`, `#` or control character -/
+theorem pathOk_normPath (o : Normalize.Opts) (fragment query : Str) {s : Str} (hs : PathOk s) :
+    PathOk (normPath o s fragment query) := by
+  have h0 := pathOk_pathSteps o hs
+  have e : normPath o s fragment query = finishPath o.quoted
+      (if (o.stripTrailingSlash && endsWith
+          (if pathSteps o s = ['/'] ∧ fragment.isEmpty = true ∧ query.isEmpty = true then [] else pathSteps o s) ['/']) = true
+        then rstripChars
+          (if pathSteps o s = ['/'] ∧ fragment.isEmpty = true ∧ query.isEmpty = true then [] else pathSteps o s) ['/']
+        else (if pathSteps o s = ['/'] ∧ fragment.isEmpty = true ∧ query.isEmpty = true then [] else pathSteps o s)) := rfl
+  rw [e]
+  apply pathOk_finishPath
+  have h1 : PathOk (if pathSteps o s = ['/'] ∧ fragment.isEmpty = true ∧ query.isEmpty = true then []
+      else pathSteps o s) := by
+    split
+    · exact PathOk.nil
+    · exact h0
+  generalize (if pathSteps o s = ['/'] ∧ fragment.isEmpty = true ∧ query.isEmpty = true then []
+      else pathSteps o s) = x at h1 ⊢
+  split
+  · obtain ⟨t, ht, _⟩ := rstripChars_spec x ['/']
+    exact h1.of_prefix ⟨t, ht.symm⟩
+  · exact h1
+
+
+/-! ## the query -/
+
+/-- what the printer needs of a query (or of a piece of it): no `#`, no control character -/
+def QOk (s : Str) : Prop := '#' ∉ s ∧ NoCtl s
+
+theorem QOk.of_subset {s t : Str} (h : t ⊆ s) (hs : QOk s) : QOk t :=
+  ⟨fun hm => hs.1 (h hm), NoCtl.of_subset h hs.2⟩
+
+theorem qOk_unquoteQueryItem {s : Str} (hs : QOk s) : QOk (unquoteQueryItem s) :=
+  ⟨not_mem_safelyUnquote _ ⟨by decide, by decide⟩ (by decide) (by decide) s hs.1,
+    noCtl_safelyUnquote _ hs.2⟩
+
+theorem qOk_lower {s : Str} (hs : QOk s) : QOk (lower s) :=
+  ⟨fun hm => hs.1 (mem_lower_bad (by decide) hm), hs.2.lower⟩
+
+theorem qOk_safelyQuote (s : Str) : QOk (safelyQuote s) :=
+  ⟨Ural.Canonicalize.not_mem_safelyQuote ⟨by decide, by decide⟩ (by decide) s, noCtl_safelyQuote s⟩
+
+theorem qOk_serialize {qsl : List (Str × Option Str)} (h : ∀ x ∈ qslStrs qsl, QOk x) :
+    QOk (safeSerializeQsl qsl) := by
+  constructor
+  · intro hm
+    rcases mem_serialize hm with h1 | h1 | ⟨x, hx, hc⟩
+    · cases h1
+    · cases h1
+    · exact (h x hx).1 hc
+  · intro c hc
+    rcases mem_serialize hc with rfl | rfl | ⟨x, hx, hcx⟩
+    · decide
+    · decide
+    · exact (h x hx).2 c hcx
+
+theorem mem_fixMistakesFrom {x : Char} : ∀ (s : Str) (k : Nat), x ∈ fixMistakesFrom s k → x ∈ s ∨ x = '&' := by
+  intro s
+  induction s with
+  | nil => intro k h; simp [fixMistakesFrom] at h
+  | cons c cs ih =>
+    intro k h
+    cases k with
+    | succ k =>
+      simp only [fixMistakesFrom] at h
+      rcases ih _ h with h1 | h1
+      · exact Or.inl (List.mem_cons_of_mem _ h1)
+      · exact Or.inr h1
+    | zero =>
+      simp only [fixMistakesFrom] at h
+      split at h
+      · rcases List.mem_cons.1 h with h1 | h1
+        · exact Or.inr h1
+        · rcases ih _ h1 with h2 | h2
+          · exact Or.inl (List.mem_cons_of_mem _ h2)
+          · exact Or.inr h2
+      · rcases List.mem_cons.1 h with h1 | h1
+        · exact Or.inl (by simp [h1])
+        · rcases ih _ h1 with h2 | h2
+          · exact Or.inl (List.mem_cons_of_mem _ h2)
+          · exact Or.inr h2
+
+theorem qOk_fixMistakes {s : Str} (hs : QOk s) : QOk (fixCommonQueryMistakes s) := by
+  constructor
+  · intro hm
+    rcases mem_fixMistakesFrom s 0 hm with h | h
+    · exact hs.1 h
+    · cases h
+  · intro c hc
+    rcases mem_fixMistakesFrom s 0 hc with h | rfl
+    · exact hs.2 c h
+    · decide
+
+theorem qOk_iter_unquote {q : Str} (hq : QOk q) : ∀ x ∈ qslStrs (unquoteQsl (safeQslIter q)), QOk x := by
+  intro x hx
+  obtain ⟨y, hy, rfl⟩ := qslStrs_unquoteQsl _ x hx
+  exact qOk_unquoteQueryItem (hq.of_subset (qslStrs_safeQslIter q y hy))
+
+theorem qOk_fixedQuery (o : Normalize.Opts) (p : Parsed) (hq : QOk p.query) : QOk (fixedQuery o p) := by
+  unfold fixedQuery
+  split
+  · exact qOk_fixMistakes (qOk_serialize (qOk_iter_unquote hq))
+  · exact hq
+
+theorem qslStrs_filter (f : Str × Option Str → Bool) (L : List (Str × Option Str)) :
+    ∀ x ∈ qslStrs (L.filter f), x ∈ qslStrs L := by
+  intro x hx
+  simp only [qslStrs, List.mem_flatMap, List.mem_filter] at hx ⊢
+  obtain ⟨kv, ⟨hkv, _⟩, hx⟩ := hx
+  exact ⟨kv, hkv, hx⟩
+
+theorem qslStrs_perm {L L' : List (Str × Option Str)} (h : L.Perm L') :
+    ∀ x ∈ qslStrs L, x ∈ qslStrs L' := by
+  intro x hx
+  simp only [qslStrs, List.mem_flatMap] at hx ⊢
+  obtain ⟨kv, hkv, hx⟩ := hx
+  exact ⟨kv, h.mem_iff.1 hkv, hx⟩
+
+theorem qslStrs_map_lower (L : List (Str × Option Str)) :
+    ∀ x ∈ qslStrs (L.map (fun it => (lower it.1, it.2.map lower))), ∃ y ∈ qslStrs L, x = lower y := by
+  intro x hx
+  simp only [qslStrs, List.mem_flatMap, List.mem_map] at hx ⊢
+  obtain ⟨kv', ⟨⟨k, v⟩, hkv, rfl⟩, hx⟩ := hx
+  simp only [List.mem_cons] at hx
+  rcases hx with rfl | hx
+  · exact ⟨k, ⟨(k, v), hkv, by simp⟩, rfl⟩
+  · cases v with
+    | none => simp at hx
+    | some v0 =>
+      simp only [Option.map_some, Option.toList_some, List.mem_singleton] at hx
+      exact ⟨v0, ⟨(k, some v0), hkv, by simp⟩, hx⟩
+
+theorem qOk_filterQuery (o : Normalize.Opts) (h : Option Str) {q : Str} (hq : QOk q) :
+    ∀ x ∈ qslStrs (filterQuery o h q), QOk x := by
+  intro x hx
+  unfold filterQuery at hx
+  split at hx
+  · simp [qslStrs] at hx
+  · simp only at hx
+    have h0 : ∀ y ∈ qslStrs (if o.lowercase = true then
+        (unquoteQsl (safeQslIter q)).map (fun it => (lower it.1, it.2.map lower))
+        else unquoteQsl (safeQslIter q)), QOk y := by
+      intro y hy
+      split at hy
+      · obtain ⟨z, hz, rfl⟩ := qslStrs_map_lower _ y hy
+        exact qOk_lower (qOk_iter_unquote hq z hz)
+      · exact qOk_iter_unquote hq y hy
+    split at hx
+    · exact h0 x (qslStrs_filter _ _ x (qslStrs_perm (Ural.Normalize.sortQsl_perm _) x hx))
+    · exact h0 x (qslStrs_filter _ _ x hx)
+
+/-- **the query of the result**: no `#`, no control character -/
+theorem qOk_query (puny : Str → Str) (o : Normalize.Opts) (hp : Bool) (p : Parsed) (hq : QOk p.query) :
+    QOk (normParts puny o hp p).query := by
+  show QOk (safeSerializeQsl (normComps puny o hp p).qsl)
+  apply qOk_serialize
+  intro x hx
+  simp only [normComps] at hx
+  have h1 : ∀ y ∈ qslStrs (unquoteQsl (filterQuery o
+      ((p.hostname.map fun h => if h.isEmpty then h else lower (decodePunycodeHostname puny h)))
+      (fixedQuery o p))), QOk y := by
+    intro y hy
+    obtain ⟨z, hz, rfl⟩ := qslStrs_unquoteQsl _ y hy
+    exact qOk_unquoteQueryItem (qOk_filterQuery o _ (qOk_fixedQuery o p hq) z hz)
+  split at hx
+  · obtain ⟨z, hz, rfl⟩ := qslStrs_quoteQsl _ x hx
+    exact qOk_safelyQuote z
+  · exact h1 x hx
+
+/-- the fragment of the result: no control character -/
+theorem noCtl_fragment (puny : Str → Str) (o : Normalize.Opts) (hp : Bool) (p : Parsed)
+    (hf : NoCtl p.fragment) : NoCtl (normComps puny o hp p).fragment := by
+  have hnf : ∀ f, NoCtl f → NoCtl (normFragment o.stripFragment f) := by
+    intro f hf
+    unfold normFragment
+    split
+    · exact hf
+    · split
+      · exact hf
+      · intro c hc; simp at hc
+      · split
+        · exact hf
+        · intro c hc; simp at hc
+  simp only [normComps]
+  apply noCtl_requote
+  apply hnf
+  split
+  · exact (noCtl_safelyUnquote _ hf).lower
+  · exact noCtl_safelyUnquote _ hf
+
+
+/-! ## `ensure_protocol` on a printed result without scheme -/
+
+/-- a netloc followed by a path / query / fragment does not start like a protocol, unless the
+netloc is "letters, then a colon" -/
+theorem protoLen_netloc_rest (NL rest : Str) (hne : NL ≠ [])
+    (hnd : ∀ c ∈ NL, isNetlocDelim c = false)
+    (hrest : ∀ c, rest.head? = some c → isNetlocDelim c = true)
+    (hns : ∀ L : Str, (∀ c ∈ L, isAsciiAlpha c = true) → NL ≠ L ++ [':']) :
+    UrlParts.protoLen (NL ++ rest) = none := by
+  have hsw : startsWith (NL ++ rest) ['/', '/'] = false := by
+    cases NL with
+    | nil => exact absurd rfl hne
+    | cons c r =>
+      have : c ≠ '/' := by
+        intro e; have := hnd c (by simp); rw [e] at this; revert this; decide
+      simp [startsWith_cons_cons, this]
+  unfold UrlParts.protoLen
+  rw [hsw]
+  simp only [Bool.false_eq_true, if_false]
+  rw [if_neg]
+  rintro ⟨h1, h2, h3⟩
+  rw [Ural.CanonRoundTrip.drop_length_takeWhile] at h3
+  obtain ⟨r, hr⟩ := startsWith_three h3
+  have hsplit := List.takeWhile_append_dropWhile (p := isAsciiAlpha) (l := NL ++ rest)
+  rw [hr] at hsplit
+  have hL : ∀ c ∈ (NL ++ rest).takeWhile isAsciiAlpha, isAsciiAlpha c = true :=
+    fun c hc => Ural.Py.mem_takeWhile_pos _ _ c hc
+  have hdel : ∀ c ∈ (NL ++ rest).takeWhile isAsciiAlpha ++ [':'], (!isNetlocDelim c) = true := by
+    intro c hc
+    rcases List.mem_append.1 hc with h | h
+    · have := hL c h
+      cases hd : isNetlocDelim c with
+      | false => rfl
+      | true =>
+        simp only [isNetlocDelim, Bool.or_eq_true, decide_eq_true_eq] at hd
+        rcases hd with (rfl | rfl) | rfl <;> revert this <;> decide
+    · simp only [List.mem_singleton] at h; subst h; decide
+  have e1 : (NL ++ rest).takeWhile (fun c => !isNetlocDelim c) = NL :=
+    takeWhile_append_stop _ _ _ (fun c hc => by simp [hnd c hc]) (fun c hc => by simp [hrest c hc])
+  have e2 : (NL ++ rest).takeWhile (fun c => !isNetlocDelim c) =
+      (NL ++ rest).takeWhile isAsciiAlpha ++ [':'] := by
+    conv => lhs; rw [← hsplit]
+    have : (NL ++ rest).takeWhile isAsciiAlpha ++ ':' :: '/' :: '/' :: r =
+        ((NL ++ rest).takeWhile isAsciiAlpha ++ [':']) ++ '/' :: '/' :: r := by simp
+    rw [this]
+    exact takeWhile_append_stop _ _ _ hdel (fun c hc => by simp at hc; subst hc; decide)
+  exact hns _ hL (e1.symm.trans e2)
+
+/-! ## the tuple is well-formed and reparses -/
+
+section
+variable {puny : Str → Str} (hpc : PunyClean puny) (o : Normalize.Opts)
+  {g : UrlG} {po : Option Nat} (G : Good g po)
+include hpc G
+
+theorem Good.pathOk : PathOk g.path := by
+  refine ⟨?_, free_not_mem G.facts.path (by simp), free_not_mem G.facts.path (by simp),
+    G.noCtl_sub G.path_sub⟩
+  have := G.facts.pabs
+  cases hpath : g.path with
+  | nil => left; rfl
+  | cons c r =>
+    rw [hpath] at this
+    simp only [List.isEmpty_cons, Bool.false_or, startsWith_cons_cons, startsWith_nil,
+      Bool.and_true, beq_iff_eq] at this
+    right; exact ⟨r, by rw [this]⟩
+
+theorem Good.qOk : QOk (g.query.getD []) := by
+  refine ⟨?_, G.noCtl_sub G.query_sub⟩
+  cases hq : g.query with
+  | none => simp
+  | some q =>
+    have := G.facts.query
+    rw [hq] at this
+    simpa using free_not_mem (freeOpt_some this) (c := '#') (by simp)
+
+/-- the scheme of the result: none, or the lower-cased letters in front of `://` -/
+theorem scheme_cases :
+    (normParts puny o g.proto.hasProto (g.record po)).scheme = [] ∨
+    ∃ sc, (normParts puny o g.proto.hasProto (g.record po)).scheme = lower sc ∧
+      (o.stripProtocol || !g.proto.hasProto) = false ∧
+      sc ≠ [] ∧ sc.length ≤ 64 ∧ sc.all isAsciiAlpha = true := by
+  have hval : (normParts puny o g.proto.hasProto (g.record po)).scheme =
+      if (o.stripProtocol || !g.proto.hasProto) = true then [] else g.proto.parsedScheme := rfl
+  rw [hval]
+  by_cases hs : (o.stripProtocol || !g.proto.hasProto) = true
+  · left; simp [hs]
+  · have hs' : (o.stripProtocol || !g.proto.hasProto) = false := by simpa using hs
+    rw [if_neg hs]
+    have hp := G.facts.proto
+    cases hpr : g.proto with
+    | scheme sc =>
+      rw [hpr] at hp
+      simp only [Proto.ok, Bool.and_eq_true, Bool.not_eq_true', decide_eq_true_eq] at hp
+      obtain ⟨⟨h1, h2⟩, h3⟩ := hp
+      right
+      refine ⟨sc, rfl, ?_, by intro e; subst e; simp at h1, h2, h3⟩
+      rw [hpr] at hs'; exact hs'
+    | slashes => left; rfl
+    | bare => rw [hpr] at hs'; simp [Proto.hasProto] at hs'
+
+/-- the scheme the parser finds after `ensure_protocol` -/
+def reScheme (t : Split) : Str := if t.scheme = [] then ['h', 't', 't', 'p'] else t.scheme
+
+/-- **the tuple `normalize_url` hands to the printer is well-formed**, with `http` for a
+stripped scheme — for every option set -/
+theorem norm_wf (hn : (normParts puny o g.proto.hasProto (g.record po)).netloc ≠ []) :
+    WF (reScheme (normParts puny o g.proto.hasProto (g.record po)))
+      (normParts puny o g.proto.hasProto (g.record po)).netloc
+      (normParts puny o g.proto.hasProto (g.record po)).path
+      (normParts puny o g.proto.hasProto (g.record po)).query
+      ((normParts puny o g.proto.hasProto (g.record po)).fragment.getD []) := by
+  have hpath : PathOk (normParts puny o g.proto.hasProto (g.record po)).path :=
+    pathOk_normPath o _ _ (Good.pathOk hpc G)
+  have hq : QOk (normParts puny o g.proto.hasProto (g.record po)).query :=
+    qOk_query puny o _ _ (Good.qOk hpc G)
+  have hf : NoCtl ((normParts puny o g.proto.hasProto (g.record po)).fragment.getD []) :=
+    noCtl_fragment puny o _ _ (G.noCtl_sub G.fragment_sub)
+  have hsch : SchemeShaped (reScheme (normParts puny o g.proto.hasProto (g.record po))) ∧
+      lower (reScheme (normParts puny o g.proto.hasProto (g.record po))) =
+        reScheme (normParts puny o g.proto.hasProto (g.record po)) := by
+    unfold reScheme
+    rcases scheme_cases hpc o G with h | ⟨sc, h, _, h1, _, h3⟩
+    · rw [if_pos h]
+      exact ⟨schemeShaped_of_letters (by simp) (by decide), by decide⟩
+    · have hne : lower sc ≠ [] := by
+        cases sc with
+        | nil => exact absurd rfl h1
+        | cons a b => simp [lower]
+      rw [h, if_neg hne]
+      exact ⟨schemeShaped_lower (schemeShaped_of_letters h1 h3), Ural.Canonicalize.lower_idem sc⟩
+  have hrne : reScheme (normParts puny o g.proto.hasProto (g.record po)) ≠ [] := by
+    obtain ⟨⟨c, r, e, _⟩, _⟩ := hsch.1
+    rw [e]; simp
+  exact
+    { scheme_ok := Or.inr hsch
+      netloc_nodelim := netloc_nodelim hpc o _ G
+      netloc_ok := netloc_ok hpc o _ G
+      path_noq := hpath.noq
+      path_noh := hpath.noh
+      query_noh := hq.1
+      path_abs := fun _ => hpath.abs
+      path_no2 := fun h => absurd h hn
+      rel_nocolon := fun h => absurd h hrne
+      rel_nolead := fun h => absurd h hrne
+      clean := by
+        intro c hc
+        apply unsafe_of_ctl
+        simp only [List.mem_append] at hc
+        rcases hc with (((hc | hc) | hc) | hc) | hc
+        · exact hsch.1.noCtl c hc
+        · exact noCtl_netloc hpc o _ G c hc
+        · exact hpath.noCtl c hc
+        · exact hq.2 c hc
+        · exact hf c hc }
+
+
+/-- **`ensure_protocol` puts back what `normalize_url` cut**: after `ensure_protocol`, the
+printed result is the printed tuple with `http` for a stripped scheme -/
+theorem ensureProtocol_finalString (hn : (normParts puny o g.proto.hasProto (g.record po)).netloc ≠ []) :
+    ensureProtocol (finalString o g.proto.hasProto (normParts puny o g.proto.hasProto (g.record po)))
+        Ural.LruVariants.httpStr =
+      urlunsplit20 (reScheme (normParts puny o g.proto.hasProto (g.record po)))
+        (normParts puny o g.proto.hasProto (g.record po)).netloc
+        (normParts puny o g.proto.hasProto (g.record po)).path
+        (normParts puny o g.proto.hasProto (g.record po)).query
+        ((normParts puny o g.proto.hasProto (g.record po)).fragment.getD []) := by
+  have hpath : PathOk (normParts puny o g.proto.hasProto (g.record po)).path :=
+    pathOk_normPath o _ _ (Good.pathOk hpc G)
+  have hnd := netloc_nodelim hpc o g.proto.hasProto G
+  have hns := netloc_not_scheme hpc o g.proto.hasProto G
+  have hsc := scheme_cases hpc o G
+  have hfs : finalString o g.proto.hasProto (normParts puny o g.proto.hasProto (g.record po)) =
+      if ((o.stripProtocol || !g.proto.hasProto) && startsWith
+          (urlunsplit (normParts puny o g.proto.hasProto (g.record po))) ['/', '/']) = true
+      then (urlunsplit (normParts puny o g.proto.hasProto (g.record po))).drop 2
+      else urlunsplit (normParts puny o g.proto.hasProto (g.record po)) := rfl
+  rw [hfs, urlunsplit_eq_urlunsplit20]
+  generalize (normParts puny o g.proto.hasProto (g.record po)).netloc = NL at *
+  generalize (normParts puny o g.proto.hasProto (g.record po)).path = PA at *
+  generalize (normParts puny o g.proto.hasProto (g.record po)).query = Q at *
+  generalize (normParts puny o g.proto.hasProto (g.record po)).fragment.getD [] = F at *
+  unfold reScheme
+  generalize (normParts puny o g.proto.hasProto (g.record po)).scheme = SC at *
+  have hp3 : Ural.LruVariants.httpStr = ['h', 't', 't', 'p'] := rfl
+  have hr : rstripChars ['h', 't', 't', 'p'] [':', '/'] = ['h', 't', 't', 'p'] := by decide
+  have hb : ∀ sc, bodyOf sc NL PA = '/' :: '/' :: (NL ++ PA) := fun sc =>
+    bodyOf_true sc NL PA (by simp [hn]) hpath.abs
+  rw [urlunsplit20_eq, urlunsplit20_eq, hb, hb]
+  rcases hsc with h | ⟨sc, h, hstrip, h1, h2, h3⟩
+  · subst h
+    simp only [if_true, schemePart, ne_eq, not_true_eq_false, if_false, List.nil_append]
+    have hsw : startsWith ('/' :: '/' :: (NL ++ PA) ++ (queryPart Q ++ fragPart F)) ['/', '/'] = true := by
+      simp [startsWith_cons_cons, startsWith_nil]
+    rw [hsw, Bool.and_true]
+    by_cases hs : (o.stripProtocol || !g.proto.hasProto) = true
+    · rw [if_pos hs]
+      have e : ('/' :: '/' :: (NL ++ PA) ++ (queryPart Q ++ fragPart F)).drop 2 =
+          NL ++ (PA ++ (queryPart Q ++ fragPart F)) := by simp
+      rw [e]
+      have hpl := protoLen_netloc_rest NL (PA ++ (queryPart Q ++ fragPart F)) hn hnd
+        (pathTail_head PA Q F hpath.abs) hns
+      unfold ensureProtocol
+      rw [hpl, hp3, hr]
+      simp
+    · rw [if_neg hs]
+      have hpl : UrlParts.protoLen ('/' :: '/' :: (NL ++ PA) ++ (queryPart Q ++ fragPart F)) = some 2 := by
+        unfold UrlParts.protoLen; rw [hsw]; rfl
+      unfold ensureProtocol
+      rw [hpl, hp3, hr]
+      simp only [hsw, if_true]
+      simp
+  · subst h
+    have hne : lower sc ≠ [] := by
+      cases sc with
+      | nil => exact absurd rfl h1
+      | cons a b => simp [lower]
+    rw [hstrip]
+    simp only [Bool.false_and, Bool.false_eq_true, if_false, if_neg hne, schemePart, ne_eq, hne,
+      not_false_eq_true, if_true]
+    have e : lower sc ++ [':'] ++ ('/' :: '/' :: (NL ++ PA) ++ (queryPart Q ++ fragPart F)) =
+        lower sc ++ ':' :: '/' :: '/' :: ((NL ++ PA) ++ (queryPart Q ++ fragPart F)) := by simp
+    rw [e]
+    apply Ural.C07.ensureProtocol_of_scheme _ _ _ hne
+    · intro c hc
+      simp only [lower, List.mem_map] at hc
+      obtain ⟨d, hd, rfl⟩ := hc
+      exact Ural.C07.isAsciiAlpha_lowerChar ((List.all_eq_true.1 h3) d hd)
+    · simpa [lower] using h2
+
+/-- **the printed result of `normalize_url` reparses to its tuple** (modelled parser, after
+`ensure_protocol`; `http` for a stripped scheme): every option set, every string of the class
+whose result has a netloc -/
+theorem norm_reparse (hn : (normParts puny o g.proto.hasProto (g.record po)).netloc ≠ []) :
+    Ural.LruVariants.modelSplit5
+        (ensureProtocol (finalString o g.proto.hasProto (normParts puny o g.proto.hasProto (g.record po)))
+          Ural.LruVariants.httpStr) =
+      some ⟨reScheme (normParts puny o g.proto.hasProto (g.record po)),
+        (normParts puny o g.proto.hasProto (g.record po)).netloc,
+        (normParts puny o g.proto.hasProto (g.record po)).path,
+        (normParts puny o g.proto.hasProto (g.record po)).query,
+        (normParts puny o g.proto.hasProto (g.record po)).fragment.getD []⟩ := by
+  rw [ensureProtocol_finalString hpc o G hn]
+  unfold Ural.LruVariants.modelSplit5
+  rw [urlsplit_urlunsplit20 _ _ _ _ _ (norm_wf hpc o G hn)]
+  rfl
+
+end
+
 end Ural.NormReparse
